@@ -121,6 +121,60 @@ def run(ctx, proof):
                           {"n": n, "comp": comp, "gap": gap, "solver": sname, "reps": reps, "limit": limit, "failures": str(fails[:4])})
         ctx.sample({"part": "recording", "n": n, "solver": sname, "gap": gap, "reps": reps, "limit": limit,
                     "actions_of_first_repetition": log[0]["actions"] if log else None}, limit=3)
+    # the same recording statement through the LINEAR environment wrapper (ModelInstance(linear=True), the --linear flag):
+    # actions are coalition SIZES there, the action matrix must still hold the ids of the coalitions actually revealed
+    for _ in range(4 if ctx.quick else 30):
+        n = rng.choice([3, 4])
+        comp = rng.choice(["superadditive", "superadditive_cached"])
+        gap = rng.choice(gaps)
+        gen = rng.choice(["xos", "xs", "noisy_factory", "factory"])
+        reps = rng.randint(1, 3)
+        limit = rng.randint(1, 2 ** n - n - 2)
+        inst = ModelInstance(number_of_players=n, game_class=comp, game_generator=gen, gap_function=gap, run_steps_limit=limit,
+                             seed=rng.randrange(10 ** 6), linear=True)
+        llog = []
+
+        def l_after_reset(env, _llog=llog):
+            inner = env.icg_gym
+            _llog.append({"env": env, "hidden": [float(x) for x in inner.full_game.get_values()], "snaps": []})
+
+        def l_policy(env, _llog=llog, _rng=rng):
+            inner = env.icg_gym
+            _llog[-1]["snaps"].append({i for i, k in enumerate(inner.incomplete_game.are_values_known()) if k})
+            sizes = [i for i, m in enumerate(env.action_masks()) if m]
+            return _rng.choice(sizes)
+        try:
+            expl, acts = evaluate(l_policy, inst.get_env, reps, limit, GAP_FUNCTIONS[gap], 1, l_after_reset)
+        except Exception as e:  # noqa: BLE001
+            ctx.violation(f"evaluate() on the linear environment raised {type(e).__name__}: {e}",
+                          {"n": n, "comp": comp, "gap": gap, "generator": gen, "seed": inst.seed, "reps": reps, "limit": limit})
+            continue
+        ctx.evaluations += 1
+        ctx.count("recording_solver", "linear-env/random-size")
+        fails = []
+        for j in range(min(reps, len(llog))):
+            rec = llog[j]
+            snaps = rec["snaps"] + [{i for i, k in enumerate(rec["env"].icg_gym.incomplete_game.are_values_known()) if k}]
+            revealed = [sorted(snaps[t + 1] - snaps[t]) for t in range(len(snaps) - 1)]
+            if any(len(x) != 1 for x in revealed):
+                fails.append((j, "a step did not reveal exactly one coalition", revealed))
+                continue
+            ids = [x[0] for x in revealed]
+            if [int(x) for x in acts[:len(ids), j]] != ids:
+                fails.append((j, "action matrix differs from the coalitions revealed", [int(x) for x in acts[:, j]], ids))
+                continue
+            col = replay_column(n, comp, gap, rec["hidden"], ids)
+            got = [float(x) for x in expl[:len(ids) + 1, j]]
+            if not all(close(a, b, 1e-9, max(1.0, abs(b))) for a, b in zip(got, col)):
+                fails.append((j, "gap column is not the replay of the revealed coalitions on this repetition's hidden game", got, col))
+        if fails:
+            ctx.violation(f"evaluate() on the linear environment does not record the true trajectory: {fails[:2]}",
+                          {"ModelInstance": {"number_of_players": n, "game_class": comp, "game_generator": gen, "gap_function": gap,
+                                             "run_steps_limit": limit, "seed": inst.seed, "linear": True},
+                           "reps": reps, "failures": str(fails[:4])})
+        else:
+            ctx.nontrivial.add(("linear", n, comp, gap, gen, inst.seed, reps, limit))
+
     mism = []
     for (gap, got, actions, n, comp), out in zip(model_meta, run_driver_parallel(model_lines)):
         if out.startswith("err"):
